@@ -285,7 +285,24 @@ def special_values(case):
 
 
 def _unsupported():
+  import collections
+  import typing
+  NT = collections.namedtuple('NT', ['a', 'b'])
+
+  class TNT(typing.NamedTuple):
+    w: object
+    n: int
   return {
+      # tuples in every disguise: named tuples (optimizer states, algorithm states), tuple subclasses, empty tuples
+      'namedtuple': NT(np.arange(2), 1.5),
+      'namedtuple_in_list': [NT(1, 2)],
+      'typing_namedtuple': {'s': TNT(np.ones(2, np.float32), 3)},
+      'tuple_subclass': type('T2', (tuple,), {})((1, 2)),
+      'empty_tuple': (),
+      'tuple_of_arrays_in_dict': {'a': (np.arange(2), np.arange(3))},
+      'frozenset': frozenset([1]),
+      'range': range(3),
+      'bytearray': bytearray(b'ab'),
       'tuple': (1, 2),
       'tuple_nested': {'a': [(np.arange(2),)]},
       'U_array': np.array(['ab', 'c']),
@@ -396,7 +413,28 @@ def sqlite_rt(case):
     how = case.get('how', 'with')
     items = [(cid, table[cid]) for cid in ids]
     keep_open = None
-    if how == 'with':
+    if how.startswith('replaced'):
+      # history on ONE path in one process: another dataset was built there and read before; then the file is replaced
+      # (staged under a temporary name + os.replace, as the library's converters do, or removed and rebuilt in place)
+      decoy = [(cid + b'-old', {'x': np.zeros((1, 2), _dt(case['dtype'])), 'y': np.arange(1, dtype=np.int64) - 7,
+                                's': np.array([b'old'], dtype=object)}) for cid in ids[::-1]]
+      with sq.SQLiteFederatedDataBuilder(path) as b:
+        b.add_many(decoy)
+      old = sq.SQLiteFederatedData.new(path)
+      require(sorted(old.client_ids()) == sorted(c for c, _ in decoy), 'client ids of the first dataset at this path differ')
+      if how.endswith('closed'):
+        old._connection.close()
+      if 'staged' in how:
+        stage = path + '.building'
+        with sq.SQLiteFederatedDataBuilder(stage) as b:
+          b.add_many(items)
+        os.replace(stage, path)
+      else:
+        os.remove(path)
+        with sq.SQLiteFederatedDataBuilder(path) as b:
+          b.add_many(items)
+      keep_old = old   # the first reader object stays alive
+    elif how == 'with':
       with sq.SQLiteFederatedDataBuilder(path) as b:
         b.add_many(items)
     elif how == 'two_calls':
@@ -592,7 +630,8 @@ def plan(ctx):
           # histories of the builder: several add_many calls, a reader while the builder is open, a later failing step,
           # a builder used without `with`
           [{'ids': ids, 'sizes': [(i * 2 + 1) % 4 for i in range(len(ids))], 'dtype': 'float32', 'layout': 'C', 'swapped': False,
-            'how': how} for ids in idsets for how in ('two_calls', 'read_while_open', 'later_failure', 'no_with')])
+            'how': how} for ids in idsets for how in ('two_calls', 'read_while_open', 'later_failure', 'no_with', 'replaced_staged', 'replaced_staged_closed',
+                                        'replaced_rebuilt', 'replaced_rebuilt_closed')])
   ctx.run('aborted_deserialize', [{'which': w, 'cut': c} for w in range(4) for c in (0.1, 0.5, 0.9)])
   ctx.run('checkpoint_api', [{'keep': k, 'depth': 3 if th else 2} for k in (1, 2, 3)])
   ctx.run('state_rt', [{'kind': 'fedavg', 'opt': o} for o in ('sgd', 'adam', 'mom')] +
